@@ -321,7 +321,7 @@ def units(tier, seed):
     out = []
     for (D, P) in ([(3, 2)] if tier == 'quick' else [(5, 3), (8, 2), (3, 5)]):
         for op in O.catalogue():
-            if 'c14only' in op.tags:
+            if 'c14only' in op.tags or 'c10only' in op.tags:
                 continue
             if P >= 5 and op.group == 'kink':
                 continue      # (one branch per element and direction: 2^10 .. 3^10 paths)
